@@ -1,5 +1,7 @@
 import ShexerModel.Model.Emit
 import ShexerModel.Model.Ctor
+import ShexerModel.Model.Shacl
+import ShexerModel.Model.Targets
 import ShexerModel.Spec.Counts
 import ShexerModel.Spec.ShExSem
 open Shexer
@@ -25,8 +27,14 @@ structure DState where
   /-- triples that take part in the selection of instances (all but those marked `TX`) -/
   selTriples : Array Triple := #[]
   queries : Array Query := #[]
+  /-- explicit selection (`SEL` lines): node ↦ labels; overrides the class-based selection in the spec modes -/
+  selLines : Array (String × List String) := #[]
   /-- shapes handed in from outside (the implementation's output) for the `conf` mode -/
   shapes : Array Shexer.Shape := #[]
+  /-- shape map: prefixes (reversed namespaces dict, dictionary order) and items -/
+  prefixes : Array (String × String) := #[]
+  /-- (raw selector, raw label, explicit rows for selectors the model cannot evaluate) -/
+  smItems : Array (String × String × Option (List String)) := #[]
 
 def parseBool (s : String) : Bool := s == "1" || s == "true" || s == "True"
 
@@ -70,12 +78,51 @@ def parseCard (s : String) : Card :=
   if s == "+" then Card.plus else if s == "*" then Card.star else if s == "?" then Card.opt
   else Card.exact (((s.drop 1).dropEnd 1).toString.toNat?.getD 0)
 
+/-- selection of the shape map (+ all classes in mixed mode); `none` when a selector or label is rejected -/
+def resolveSel (st : DState) : Option (Tracker.InstDict × List String) :=
+  let g := st.triples.toList
+  let px := st.prefixes.toList
+  let items := st.smItems.toList.map fun (rs, rl, rows) =>
+    let lab := Targets.parseLabel px rl
+    let sel := Targets.parseSelector px rs
+    match rows, lab, sel with
+    | some r, some l, _ => some (r, l)
+    | none, some l, Targets.Selector.error => none
+    | none, some l, Targets.Selector.unsupported _ => none
+    | none, some l, s => some (Targets.evalSelector g s, l)
+    | _, none, _ => none
+  if items.any (·.isNone) then none
+  else
+    let its := items.filterMap id
+    let sm := Targets.trackItems its
+    let labels := its.map (·.2)
+    if st.cfg.allClasses then some (Targets.integrate sm (Tracker.track st.cfg g), labels) else some (sm, labels)
+
 def runCase (st : DState) (what id : String) : List String :=
   let g := st.triples.toList
   let body : List String :=
     match what with
+    | "resolve" =>
+      match resolveSel st with
+      | none => ["ERR"]
+      | some (sel, _) => sel.map fun (n, ls) => "SEL\t" ++ n ++ "\t" ++ "|".intercalate ls
+    | "shapesmap" =>
+      match resolveSel st with
+      | none => ["ERR"]
+      | some (sel, labels) => Emit.render (Shexer.runSel { st.cfg with protectedLabels := labels } sel g)
+    | "shapessel" =>
+      -- selection handed in (`SEL` lines, in the implementation's dictionary order); labels of the shape map are protected
+      let sel : Tracker.InstDict := st.selLines.toList
+      let labels := (st.smItems.toList.filterMap fun (_, rl, _) => Targets.parseLabel st.prefixes.toList rl)
+      Emit.render (Shexer.runSel { st.cfg with protectedLabels := labels } sel g)
+    | "fixedlines" =>
+      st.smItems.toList.map fun (rs, _, _) =>
+        match Targets.splitFixedLine rs with
+        | none => "SKIP"
+        | some none => "ERR"
+        | some (some (a, b)) => "ITEM\t" ++ a ++ "\t" ++ b
     | "keys" =>
-      let sel := Spec.selectionOf st.cfg st.selTriples.toList
+      let sel := if st.selLines.isEmpty then Spec.selectionOf st.cfg st.selTriples.toList else st.selLines.toList
       let classes := Spec.dedup ((Dict.keys sel).flatMap fun n => Spec.classesIn sel n)
       classes.flatMap fun c =>
         ("KC\t" ++ c ++ "\t" ++ toString (Spec.classSize sel c)) ::
@@ -83,18 +130,26 @@ def runCase (st : DState) (what id : String) : List String :=
           "K\t" ++ (if k.1 then "I" else "D") ++ "\t" ++ k.2.1 ++ "\t" ++
             (match k.2.2 with | .datatype d => "dt:" ++ d | .nonliteral => "nonliteral" | .classValue v => "cv:" ++ v)
             ++ "\t" ++ toString (Spec.keyCount st.cfg sel g c k.1 k.2.1 k.2.2)
+    | "shacl" =>
+      let occ : Occ → String := fun o => match o with | Occ.none => "-" | Occ.nat k => toString k | Occ.bad => "BAD"
+      (Shacl.emit st.cfg (Shexer.run st.cfg g)).flatMap fun ns =>
+        ("NS\t" ++ ns.iri ++ "\t" ++ ns.targetClass) :: ns.props.map fun ps =>
+          "PS\t" ++ (if ps.inverse then "I" else "D") ++ "\t" ++ ps.path ++ "\t" ++
+            (match ps.restr with
+             | .nodeKind k => "nodeKind:" ++ k | .none_ => "none" | .datatype d => "datatype:" ++ d
+             | .node i => "node:" ++ i | .inValue c => "in:" ++ c) ++ "\t" ++ occ ps.min ++ "\t" ++ occ ps.max
     | "conf" =>
-      let sel := Spec.selectionOf st.cfg st.selTriples.toList
+      let sel := if st.selLines.isEmpty then Spec.selectionOf st.cfg st.selTriples.toList else st.selLines.toList
       st.shapes.toList.flatMap fun sh =>
         (Spec.nonConforming st.cfg sel g sh).map fun n =>
           "NC\t" ++ sh.classUri ++ "\t" ++ n ++ "\t" ++
             "|".intercalate ((sh.stmts.filter fun s => !Spec.stmtOk st.cfg sel g n s).map fun s => (if s.inverse then "^" else "") ++ s.prop)
             ++ "\t" ++ (if Spec.valuesCovered st.cfg sel g n sh then "covered" else "uncovered")
     | "confmodel" =>
-      let sel := Spec.selectionOf st.cfg st.selTriples.toList
+      let sel := if st.selLines.isEmpty then Spec.selectionOf st.cfg st.selTriples.toList else st.selLines.toList
       (Shexer.run st.cfg g).flatMap fun sh => (Spec.nonConforming st.cfg sel g sh).map fun n => "NC\t" ++ sh.classUri ++ "\t" ++ n
     | "spec" =>
-      let sel := Spec.selectionOf st.cfg st.selTriples.toList
+      let sel := if st.selLines.isEmpty then Spec.selectionOf st.cfg st.selTriples.toList else st.selLines.toList
       st.queries.toList.map fun q =>
         "A\t" ++ toString (if q.ty == Gen.NONLITERAL_ELEM_TYPE then Spec.countOverNonlit st.cfg sel g q.cls q.inv q.prop q.card
                            else Spec.countOver st.cfg sel g q.cls q.inv q.prop q.ty q.card) ++ "\t"
@@ -160,6 +215,9 @@ def stepLine (st : DState) (line : String) : DState × List String :=
     let t : Triple := { s := mkTerm sk s, p := p, o := mkTerm ok o }
     ({ st with triples := st.triples.push t, selTriples := st.selTriples.push t }, [])
   | ["TX", sk, s, p, ok, o] => ({ st with triples := st.triples.push { s := mkTerm sk s, p := p, o := mkTerm ok o } }, [])
+  | ["PX", p, ns] => ({ st with prefixes := st.prefixes.push (p, ns) }, [])
+  | ["SM", rs, rl] => ({ st with smItems := st.smItems.push (rs, rl, none) }, [])
+  | ["SMR", rs, rl, rows] => ({ st with smItems := st.smItems.push (rs, rl, some (splitList rows)) }, [])
   | ["SH", name, cls, n] =>
     ({ st with shapes := st.shapes.push { name := name, classUri := cls, nInstances := n.toNat?.getD 0, stmts := [] } }, [])
   | ["S", inv, p, tys, card] =>
@@ -167,6 +225,7 @@ def stepLine (st : DState) (line : String) : DState × List String :=
     (match st.shapes.back? with
      | some sh => ({ st with shapes := st.shapes.pop.push { sh with stmts := sh.stmts ++ [stm] } }, [])
      | none => (st, ["bad-op\tS before SH"]))
+  | ["SEL", n, ls] => ({ st with selLines := st.selLines.push (n, splitList ls) }, [])
   | ["Q", c, inv, p, ty, card] =>
     ({ st with queries := st.queries.push { cls := c, inv := inv == "I", prop := p, ty := ty, card := parseCard card } }, [])
   | ["RUN", what, id] => ({}, runCase st what id)
